@@ -93,7 +93,33 @@ func genC07(t *rapid.T) C07Case {
 			default:
 				tree = m.Op("xor", m.Op("overlap", m.Const(strs), m.Var("ls0")), m.Op("overlap", m.Var("li1"), m.Var("li0")))
 			}
+			// in half of the cases the literal is the SHORTER operand: an unsorted literal of 30..60
+			// elements against list variables of about a hundred
+			longVars := rapid.Bool().Draw(t, "longvars")
+			if longVars {
+				k := rapid.IntRange(30, 60).Draw(t, "shortlit")
+				tree.Walk(func(x *m.Node) {
+					if x.Kind == m.KConst {
+						switch l := x.Val.(type) {
+						case []int64:
+							x.Val = append([]int64(nil), l[:k]...)
+						case []string:
+							x.Val = append([]string(nil), l[:k]...)
+						}
+					}
+				})
+			}
 			u = UniverseFor(t, tree, false)
+			if longVars {
+				for i := range u.Vars {
+					switch u.Vars[i].Ty {
+					case m.TIntList:
+						u.Vars[i].Val.X = bigInts(90 + 7*i)
+					case m.TStrList:
+						u.Vars[i].Val.X = bigStrs(95 + 5*i)
+					}
+				}
+			}
 		default:
 			tree = wrapRoot(g.Program(rootTy(t)))
 			fixEmptyLists(tree)
